@@ -178,6 +178,52 @@ def wsweep_check(case):
     return Res(v, o=(layout,), tr=2)
 
 
+def count_cases(tier, seed):
+    return [(layout, k) for layout in ("NP2.1", "NP2.4") for k in (1, 2, 3, 5, 6, 7, 9, 10, 13)]
+
+
+def count_check(case):
+    """every channel of a recording with any number of saved channels is filtered (channel counts that are no multiple of 2, 4, 8)"""
+    layout, k = case
+    root = os.path.join(synth.proc_scratch(), "c12n")
+    np2.clean(root)
+    ns = 1811
+    data = np2.content(ns, k + 1, "broadband", seed=SEED[0] + 100 + k)
+    assign = [0] * k if layout == "NP2.1" else [(i * 2) % 3 for i in range(k)]
+    sites = np2.sites_for(assign)
+    ap = np2.make_session(root, layout, sites, data)
+    nlf = -(-ns // RATIO)
+    s2v = 0.5 / 8192 / 80
+    sos = scipy.signal.butter(N=2, Wn=1000 / 2500 / 2, btype="lowpass", output="sos")
+    v = []
+    try:
+        status, conv = np2.convert(ap, nwindow=600, post_check=True, compress=False)
+        np2.release(conv)
+        if status != 1:
+            v.append(("lf:channel-count:status", "%s with %d channels: process() returned %r" % (layout, k, status)))
+        groups = {0: list(range(k))} if layout == "NP2.1" else {sh: [i for i, a in enumerate(assign) if a == sh] for sh in sorted(set(assign))}
+        for sh, cols in groups.items():
+            f = os.path.join(root, np2.LABEL, np2.STEM + ".lf.bin") if layout == "NP2.1" else os.path.join(np2.shank_folder(root, sh), np2.STEM + ".lf.bin")
+            raw = np.fromfile(f, dtype=np.int16)
+            if raw.size != nlf * (len(cols) + 1):
+                v.append(("lf:length", "%s with %d channels: LF file of shank %d holds %d values, expected %d x %d" % (layout, k, sh, raw.size, nlf, len(cols) + 1)))
+                continue
+            lf = raw.reshape(nlf, len(cols) + 1)
+            volts = data[:, cols].astype(np.float32).astype(np.float64) * s2v
+            ref = scipy.signal.sosfiltfilt(sos, volts, axis=0)[::RATIO] / s2v
+            dd = np.abs(lf[EDGE:-EDGE, :-1].astype(np.float64) - ref[EDGE:-EDGE])
+            if dd.max() > 1.0 + 1e-6:
+                t, c = np.unravel_index(np.argmax(dd), dd.shape)
+                v.append(("lf:whole-trace:channel-count", "%s with %d saved channels: LF channel %d of shank %d differs from low-pass(whole trace)[::12] by %.1f LSB (LF sample %d)"
+                          % (layout, k, c, sh, dd.max(), t + EDGE)))
+            if not np.array_equal(lf[:, -1], data[::RATIO, -1]):
+                v.append(("lf:sync", "%s with %d channels: LF sync column is not every 12th AP sync word" % (layout, k)))
+    except Exception as e:
+        v.append(("lf:channel-count:exc:%s" % type(e).__name__, "%s with %d channels: %s: %s" % (layout, k, type(e).__name__, e)))
+    shutil.rmtree(root, ignore_errors=True)
+    return Res(v, o=(layout, k % 4), tr=1)
+
+
 def rerun_cases(tier, seed):
     return [(layout, same, comp) for layout in ("NP2.1", "NP2.4") for same in (False, True, "reinit-other-window") for comp in (False, True)]
 
@@ -301,6 +347,7 @@ CHECK = {
     "clauses": [
         Clause("lfp", "LF length, sync, window independence, whole-trace equality, metadata", cases=lf_cases, check=lf_check, setup=_setup),
         Clause("window-sweep", "every processing-window size (multiple of 12) from 588 to 1320 (thorough: to 20000)", cases=wsweep_cases, check=wsweep_check, setup=_setup),
+        Clause("channel-counts", "recordings with 1..13 saved channels: every channel is low-passed", cases=count_cases, check=count_check, setup=_setup),
         Clause("rerun", "forced re-conversion (same / fresh converter, compress on/off) reproduces the LF stream", cases=rerun_cases, check=rerun_check, setup=_setup),
         Clause("sub-range", "LFP of a sub-range through the offset entry point = LFP of the cut recording", cases=offset_cases, check=offset_check, setup=_setup),
     ],
